@@ -1060,3 +1060,105 @@ def _(mod):
         arm[i:] = [new]
         done += 1
     return done == 2
+
+
+# ------------------------------------------------------------------ round-5 rules
+@variant("c18-reset-from-alias", "break", ["C18"], MAIN, "D6r", "server_ports:reinit", "module list reset from an alias of itself")
+def _(mod):
+    for i, st in enumerate(mod.body):
+        if isinstance(st, ast.Assign) and ast.unparse(st.targets[0]) == "server_ports":
+            mod.body[i:i + 1] = [parse_stmt("DEFAULT_SERVER_PORTS = [443, 44330]"), parse_stmt("server_ports = DEFAULT_SERVER_PORTS")]
+            break
+    else:
+        return False
+    f = get_func(mod, "run")
+    def pred(n):
+        return isinstance(n, ast.Assign) and ast.unparse(n.targets[0]) == "server_ports[:]"
+    def ed(n):
+        n.value = parse_expr("DEFAULT_SERVER_PORTS")
+        return n
+    return edit_first(f, pred, ed)
+
+
+@variant("c18-preserve-reset-from-tuple", "preserve", ["C18"], MAIN, desc="module list reset from an immutable module constant")
+def _(mod):
+    for i, st in enumerate(mod.body):
+        if isinstance(st, ast.Assign) and ast.unparse(st.targets[0]) == "server_ports":
+            mod.body[i:i + 1] = [parse_stmt("DEFAULT_SERVER_PORTS = (443, 44330)"), parse_stmt("server_ports = list(DEFAULT_SERVER_PORTS)")]
+            break
+    else:
+        return False
+    f = get_func(mod, "run")
+    def pred(n):
+        return isinstance(n, ast.Assign) and ast.unparse(n.targets[0]) == "server_ports[:]"
+    def ed(n):
+        n.value = parse_expr("DEFAULT_SERVER_PORTS")
+        return n
+    return edit_first(f, pred, ed)
+
+
+@variant("c18-outfile-not-truncated", "break", ["C18", "C06"], MAIN, "D6o", "outfile-truncated", "output opened through os.open without O_TRUNC")
+def _(mod):
+    f = get_func(mod, "run")
+    def pred(n):
+        return isinstance(n, ast.Assign) and "args.outfile" in ast.unparse(n.value) and "open" in ast.unparse(n.value)
+    def ed(n):
+        n.value = parse_expr("os.fdopen(os.open(args.outfile, os.O_WRONLY | os.O_CREAT, 0o600), 'wb')")
+        return n
+    ok = edit_first(f, pred, ed)
+    mod.body.insert(0, parse_stmt("import os"))
+    return ok
+
+
+@variant("c18-outfile-append", "break", ["C18"], MAIN, "D6o", "outfile-truncated", "output opened in append mode")
+def _(mod):
+    f = get_func(mod, "run")
+    def pred(n):
+        return isinstance(n, ast.Assign) and "args.outfile" in ast.unparse(n.value) and "open" in ast.unparse(n.value)
+    def ed(n):
+        n.value = parse_expr("open(args.outfile, 'ab')")
+        return n
+    return edit_first(f, pred, ed)
+
+
+@variant("c05-chained-buffer-init", "break", ["C05", "C01", "C08"], SES, "D6a", "", "two direction buffers share one list through a chained assignment")
+def _(mod):
+    f = get_func(mod, "Session.__init__")
+    def ed(n):
+        return parse_stmt("self.server_packet_buffer = self.client_packet_buffer = []")
+    ok = edit_first(f, is_assign_to("self.server_packet_buffer"), ed)
+    return ok and edit_first(f, is_assign_to("self.client_packet_buffer"), lambda n: None)
+
+
+@variant("c08-extract-only-when-full", "break", ["C08", "C01", "C05"], SES, "CAUS", "server-extract", "server records extracted only once several packets are buffered")
+def _(mod):
+    f = get_func(mod, "Session.get_tls_records")
+    def pred(n):
+        return isinstance(n, ast.Expr) and ast.unparse(n) == "self.extract_server_buf()"
+    def ed(n):
+        return ast.If(test=parse_expr("len(self.server_packet_buffer) > 1"), body=[n], orelse=[])
+    return edit_first(f, pred, ed)
+
+
+@variant("c02-new-data-flag-dropped", "break", ["C02", "C15"], QS, "QHS", "new-data-flag", "decryptors installed on every CRYPTO frame, not only on new handshake data")
+def _(mod):
+    f = get_func(mod, "QuicSession.handle_crypto_frame")
+    def pred(n):
+        return isinstance(n, ast.If) and ast.unparse(n.test) == "self.tls_session.new_data"
+    def ed(n):
+        n.test = parse_expr("True")
+        return n
+    return edit_first(f, pred, ed)
+
+
+@variant("c06-snaplen-too-small", "break", ["C06"], MAIN, "D3", "writer", "writer announces a snaplen smaller than the largest frame it writes")
+def _(mod):
+    f = get_func(mod, "run")
+    def pred(n):
+        return isinstance(n, ast.Call) and ast.unparse(n.func) == "dpkt.pcapng.Writer"
+    def ed(n):
+        for k in n.keywords:
+            if k.arg == "snaplen":
+                k.value = ast.Constant(1500)
+        return n
+    return edit_first(f, pred, ed)
